@@ -1224,6 +1224,11 @@ func (g *getopts) next(optstr string, args []string) (opt rune, optarg string, d
 	}
 
 	opts := arg[1:]
+	if g.runeidx >= len(opts) {
+		// The arguments changed since the previous call, so the position inside
+		// the option cluster is stale; start over at this argument.
+		g.runeidx = 0
+	}
 	opt = opts[g.runeidx]
 
 	i := strings.IndexRune(optstr, opt)
